@@ -172,7 +172,7 @@ func init() {
 	}
 	sup.Register(&sup.Check{
 		Prop: "C03", Level: "exploration",
-		Rule:        "concurrent client histories (3-8 goroutines over 1-3 handles of one bucket, 1-3 document keys + a counter key, in-memory and on-disk) recorded at the client boundary with call/return ticks from one atomic counter and unique tokens in every written value; decided per key by porcupine v1.3.0 against a sequential model of body, xattrs, CAS and expiry (Update / WriteUpdateWithXattrs steps require that the stored value was built on exactly the version the callback was shown last; Touch / GetAndTouchRaw carry unique expiries and GetExpiry must return the one the current version received); conservation monitors for Incr sums and Update / WriteUpdateWithXattrs token lists; PRNG-determined yields/sleeps at the out-of-mutex hook points; every workload repeated under the Go race detector (reports count only when both stacks have rosmar frames; signatures owned by other properties are listed as foreign); a cell is a distinct interleaving fingerprint (per-key (client, op kind) sequence in return order); (forced windows, leak) nothing an attempt that lost its CAS check asked for (expiry, macro specs) may be applied by the attempt that wins",
+		Rule:        "concurrent client histories (3-8 goroutines over 1-3 handles of one bucket, 1-3 document keys + a counter key, in-memory and on-disk) recorded at the client boundary with call/return ticks from one atomic counter and unique tokens in every written value; decided per key by porcupine v1.3.0 against a sequential model of body, xattrs, CAS and expiry (Update / WriteUpdateWithXattrs steps require that the stored value was built on exactly the version the callback was shown last; Touch / GetAndTouchRaw carry unique expiries and GetExpiry must return the one the current version received); conservation monitors for Incr sums and Update / WriteUpdateWithXattrs token lists; PRNG-determined yields/sleeps at the out-of-mutex hook points; every workload repeated under the Go race detector (reports count only when both stacks have rosmar frames; signatures owned by other properties are listed as foreign); a cell is a distinct interleaving fingerprint (per-key (client, op kind) sequence in return order); (forced windows, leak) nothing an attempt that lost its CAS check asked for (expiry, macro specs) may be applied by the attempt that wins; a third of the histories start with two documents sharing one CAS; forced window: a tombstoning WriteUpdateWithXattrs must retry when a rival deletes the document first",
 		Assumptions: []string{"schedules are sampled (plus hook-point noise), not enumerated; a porcupine timeout is inconclusive", "revision numbers are not part of the concurrent model (C17 has its own concurrent counter); the expiry after a sub-document write is not pinned"},
 		Parts: []sup.Part{
 			mk("linz", 2000, 40000, false, linzScenario),
